@@ -22,13 +22,16 @@ Definition chk_kmeans : P (list Z) :=
       let kk := if n <? k then n else k in
       let dimn := length (hd [] vs) in
       let finite := forallb (fun c => forallb F32.is_finite c) cents in
-      (* bounding box per coordinate (Euclidean family), 4-ulp slack for the float32 mean *)
+      (* bounding box per coordinate (Euclidean family), with the slack the float32 mean needs: summing
+         up to n values one after the other and dividing is off by at most about n units in the last
+         place (already three identical values have a float32 mean that differs from them in a fifth of
+         the cases), so a centroid may leave the box by n + 4 ulps at most *)
       let inbox := match m with
                    | Cos => true
                    | _ => forallb (fun c =>
                             forallb (fun jc => let '(j, x) := jc in
                                                let col := map (fun v => nth j v F32.zero) vs in
-                                               (key_min col - 4 <=? F32.key x) && (F32.key x <=? key_max col + 4))
+                                               (key_min col - 4 - n <=? F32.key x) && (F32.key x <=? key_max col + 4 + n))
                                     (combine (seq 0 (length c)) c)) cents
                    end in
       let specb := negb isnil && (Z.of_nat (length cents) =? kk) && (Z.of_nat (length mapping) =? n) &&
